@@ -64,6 +64,8 @@ FOCUS = {
     "counts_atomic_on_tree": ["refcount-storm"],
     "closures_own_on_tree": ["into-func"],
     "slots_in_frame_on_tree": ["frame-slots"],
+    "globals_upgrades_rechecked_on_tree": ["compile-race"],
+    "globals_entries_frozen_on_tree": ["multi-runtime"],
 }
 
 
@@ -79,9 +81,11 @@ def share_focus(ctx):
             if name.endswith("." + thm):
                 focus += [c for c in classes if c not in focus]
     if "extract:c12sharing" in ctx.broken and not focus:
-        focus = [c for t, cs in FOCUS.items() for c in cs if t != "slots_in_frame_on_tree"]
+        focus = [c for t, cs in FOCUS.items() for c in cs if t in ("lock_discipline_on_tree", "counts_atomic_on_tree", "closures_own_on_tree")]
     if "extract:c12frame" in ctx.broken:
         focus = (focus or []) + ["frame-slots"]
+    if "extract:c12globals" in ctx.broken:
+        focus = (focus or []) + ["compile-race", "multi-runtime"]
     return focus or None
 
 
@@ -175,7 +179,8 @@ def tsan(ctx):
 def run(ctx):
     ctx.extract(["c12bounds", "c12sharing", "c12instr", "c12globals", "c12frame"])
     ctx.prove(PROPS, extra_modules=["RotoV.Lemmas.Conc", "RotoV.Model.Conc", "RotoV.Lemmas.ConcShare", "RotoV.Model.ConcShare",
-                                     "RotoV.Lemmas.ConcExec", "RotoV.Model.ConcExec", "RotoV.Model.ConcInstr", "RotoV.Model.ConcFrame", "RotoV.Lemmas.ConcFrame"])
+                                     "RotoV.Lemmas.ConcExec", "RotoV.Model.ConcExec", "RotoV.Model.ConcInstr", "RotoV.Model.ConcFrame", "RotoV.Lemmas.ConcFrame",
+                                     "RotoV.Model.ConcIntern", "RotoV.Lemmas.ConcIntern"])
     if ctx.build_harness("c12"):
         ctx.harness("c12", harness_args(ctx, ctx.seed, ctx.tier), timeout=3000)
         if ctx.tier == "thorough":
@@ -213,7 +218,13 @@ def run(ctx):
              "and a registered constant holding a drop-counting token: no drop while an owner lives, exactly one at the end), into-func (closure of into_func called after every other "
              "owner was dropped on another thread, several arities, with and without context), frame-slots (run FIRST; one script per slot size 8 B … 256 KiB, sizes around the powers of two, "
              "the big value as local / temporary argument / return slot / local live across a recursive call; N threads rendezvous INSIDE the function through a registered function, so all activations are "
-             "live at once in every round, then run free; every result must equal the closed form = the single-threaded result); rustc probes: a Send + !Sync closure, an Rc constant and a Send + !Sync "
+             "live at once in every round, then run free; every result must equal the closed form = the single-threaded result), "
+             "multi-runtime (2-4 runtimes in one process register the same four Rust types under different Roto names — the name of a type in one runtime denotes its neighbour in the next — or under the "
+             "same name in different module scopes, built one after the other or on threads of their own at the same moment; functions and a constant mention every type; under each runtime the well-typed "
+             "scripts of THAT runtime must compile and return the closed form, handles must have the declared Rust signature, scripts returning one registered type as another must be rejected: each runtime "
+             "behaves as alone in a fresh process), compile-race (3-8 barrier-synchronised threads parse + compile + call scripts whose 36-120 identifier texts are new to the process and shared between the "
+             "threads — same script, overlapping name windows, or each thread first builds a runtime registering functions under the same fresh names; 40 rounds; every outcome must equal the same source "
+             "compiled alone on one thread = the closed form); rustc probes: a Send + !Sync closure, an Rc constant and a Send + !Sync "
              "host value Val<T> in a script-level constant must be rejected (if accepted they are run: 4 x 100000 calls, lost updates reported), their Sync controls must build and count exactly",
         search=search,
     )
